@@ -1146,6 +1146,21 @@ static void register_training() {
         primitivParameter_t *ps[2] = {c(&xa), c(&ya)};
         obs.push_back(verdict(CC(return primitivAddParametersToOptimizer(co, ps, A.u(2) % 3);),
                               PP(if (A.u(2) % 3 > 0) po->add(xb); if (A.u(2) % 3 > 1) po->add(yb); return "";)));
+        // a rejected array call ({valid, NULL}) registers nothing: after one more update on both sides the parameter that
+        // stood before the NULL still has its value
+        { Parameter za(Shape({2}), {3, 3}, E.dev);
+          primitivParameter_t *bad[2] = {c(&za), nullptr};
+          const PRIMITIV_C_STATUS bst = primitivAddParametersToOptimizer(co, bad, 2);
+          (void)get_message();
+          primitivResetStatus();
+          for (Parameter *p : {&pa, &pb, &qa, &qb, &ra, &rb, &xa, &xb, &ya, &yb}) if (p->valid()) p->gradient().reset(0.25f);
+          za.gradient().reset(1);
+          bool upd_ok = true;
+          try { cpp(co)->update(); po->update(); } catch (const std::exception &) { upd_ok = false; }
+          const std::vector<float> zv = za.value().to_vector();
+          if (bst != ERRST) obs.push_back("diff status: primitivAddParametersToOptimizer({p, NULL}, 2) did not fail");
+          else if (upd_ok && !(zv[0] == 3 && zv[1] == 3)) obs.push_back("diff state: the rejected primitivAddParametersToOptimizer({p, NULL}, 2) registered p (update() changed it)");
+          else obs.push_back("ok same error"); }
         // two update steps with the same gradients
         for (int step = 0; step < 2; ++step) {
           obs.push_back(verdict(CC(return primitivResetOptimizerGradients(co);), PP(po->reset_gradients(); return "";)));
